@@ -603,11 +603,11 @@ tp_task_handler(int type, tp_event_p ev, tp_udata_p tp_udata,
 	}
 
 err_out: /* Error. */
-	error = errno;
-	if (0 == error) {
+	if (0 == errno) {
 		error = EINVAL;
-	}
-	error = SKT_ERR_FILTER(error);
+	} else if (0 != SKT_ERR_FILTER(errno)) {
+		error = errno;
+	} /* else: would block: keep error reported by thread pool, if any. */
 	if (0 == error) {
 		tptask->tot_transfered_size += transfered_size; /* Save transfered_size. */
 		cb_ret = TP_TASK_CB_CONTINUE;
